@@ -38,11 +38,15 @@ type Step struct {
 	Fault  int    `json:"fault,omitempty"` // k>0: the k-th statement reaching the database during this step fails
 	// Race: a second delivery (same branch) runs concurrently with this one
 	Race string `json:"race,omitempty"`
+	// BizFail: the business statement of this delivery fails (the participant rolls its transaction back)
+	BizFail bool `json:"biz_fail,omitempty"`
 }
 
 type Case struct {
 	Mode  string `json:"mode"` // api (fence.WithFence on the business transaction) | driver (the seata fence driver)
 	Steps []Step `json:"steps"`
+	// SameCtx: all deliveries of a branch reuse one seata context object (a retry loop of the caller)
+	SameCtx bool `json:"same_ctx,omitempty"`
 }
 
 type model struct {
@@ -109,13 +113,21 @@ const xid = "10.0.0.9:8091:4711"
 func branchID(b int) int64 { return int64(7000 + b) }
 
 // deliver runs one phase for one branch the way a TCC participant does.
-func deliver(mode string, b int, phase string) (err error) {
+var sharedCtx = map[int]context.Context{}
+
+func deliver(mode string, b int, phase string, same bool) (err error) {
 	defer func() {
 		if p := recover(); p != nil {
 			err = fmt.Errorf("PANIC: %v", p)
 		}
 	}()
 	cx := tm.InitSeataContext(context.Background())
+	if same {
+		if sharedCtx[b] == nil {
+			sharedCtx[b] = cx
+		}
+		cx = sharedCtx[b]
+	}
 	tm.SetXID(cx, xid)
 	tm.SetTxName(cx, "c06")
 	tm.SetBusinessActionContext(cx, &tm.BusinessActionContext{Xid: xid, BranchId: branchID(b), ActionName: "act"})
@@ -187,11 +199,16 @@ func runCase(c Case) *pt.Failure {
 			}
 		}
 		models := []model{{}, {}}
+		sharedCtx = map[int]context.Context{}
 		var hist []string
 		last.interesting = false
 		for i, st := range c.Steps {
 			env.Srv.ResetJournal()
 			var f *memsql.Fault
+			if st.BizFail {
+				f = &memsql.Fault{Match: func(e *memsql.Entry) bool { return strings.HasPrefix(e.Upper(), "UPDATE EFF") }}
+				env.Srv.AddFault(f)
+			}
 			if st.Fault > 0 {
 				n := 0
 				f = &memsql.Fault{Match: func(e *memsql.Entry) bool {
@@ -207,11 +224,11 @@ func runCase(c Case) *pt.Failure {
 			if st.Race != "" {
 				var wg sync.WaitGroup
 				wg.Add(2)
-				go func() { defer wg.Done(); err = deliver(c.Mode, st.Branch, st.Phase) }()
-				go func() { defer wg.Done(); err2 = deliver(c.Mode, st.Branch, st.Race) }()
+				go func() { defer wg.Done(); err = deliver(c.Mode, st.Branch, st.Phase, false) }()
+				go func() { defer wg.Done(); err2 = deliver(c.Mode, st.Branch, st.Race, false) }()
 				wg.Wait()
 			} else {
-				err = deliver(c.Mode, st.Branch, st.Phase)
+				err = deliver(c.Mode, st.Branch, st.Phase, c.SameCtx)
 			}
 			env.Srv.ClearFaults()
 			fired := f != nil && f.Fired() > 0
@@ -223,6 +240,9 @@ func runCase(c Case) *pt.Failure {
 			}
 			if st.Fault > 0 {
 				desc += fmt.Sprintf(" with a failure at statement %d (fired=%v)", st.Fault, fired)
+			}
+			if st.BizFail {
+				desc += fmt.Sprintf(" whose business statement fails (fired=%v)", fired)
 			}
 			hist = append(hist, fmt.Sprintf("%s -> err=%v err2=%v; record status %d, effects try=%d confirm=%d cancel=%d", desc, short(err), short(err2), got.status, got.tried, got.confirmed, got.cancelled))
 			info := func() string {
@@ -337,6 +357,9 @@ func faultTag(st Step) string {
 	if st.Fault > 0 {
 		return "/fault"
 	}
+	if st.BizFail {
+		return "/business-failure"
+	}
 	return ""
 }
 
@@ -378,14 +401,18 @@ func prop(mode string) func(rt *rapid.T) {
 				st.Fault = rapid.IntRange(1, 8).Draw(rt, "fault")
 			case 1:
 				st.Race = rapid.SampledFrom([]string{"prepare", "commit", "rollback"}).Draw(rt, "race")
+			case 2:
+				st.BizFail = true
 			}
 			c.Steps = append(c.Steps, st)
 		}
+		c.SameCtx = rapid.IntRange(0, 3).Draw(rt, "sameCtx") == 0
 		fl := runCase(c)
 		var sh []string
 		for _, st := range c.Steps {
-			sh = append(sh, fmt.Sprintf("%s%d%s%s", st.Phase[:1], st.Branch, faultTag(st), raceTag(st)))
+			sh = append(sh, fmt.Sprintf("%s%d%s%s%v", st.Phase[:1], st.Branch, faultTag(st), raceTag(st), st.BizFail))
 		}
+		sh = append(sh, fmt.Sprint(c.SameCtx))
 		ctx.Rec.Case(mode, last.interesting, mode+"|"+strings.Join(sh, ","), c, "mode:"+mode)
 		ctx.Judge(rt, mode, fl, c)
 	}
@@ -419,11 +446,21 @@ func TestPropFenceDriver(t *testing.T) {
 		if len(c.Steps) == 0 {
 			c.Steps = []Step{{Branch: 0, Phase: "prepare"}}
 		}
+		// a delivery whose business statement fails (both transactions roll back: nothing changes), then
+		// the redelivery, optionally on the same seata context object
+		if rapid.IntRange(0, 2).Draw(rt, "bizFail") == 0 {
+			k := rapid.IntRange(0, len(c.Steps)-1).Draw(rt, "failAt")
+			failed := c.Steps[k]
+			failed.BizFail = true
+			c.Steps = append(c.Steps[:k], append([]Step{failed}, c.Steps[k:]...)...)
+			c.SameCtx = rapid.Bool().Draw(rt, "sameCtx")
+		}
 		fl := runCase(c)
 		var sh []string
 		for _, st := range c.Steps {
-			sh = append(sh, fmt.Sprintf("%s%d", st.Phase[:1], st.Branch))
+			sh = append(sh, fmt.Sprintf("%s%d%v", st.Phase[:1], st.Branch, st.BizFail))
 		}
+		sh = append(sh, fmt.Sprint(c.SameCtx))
 		ctx.Rec.Case("driver", len(c.Steps) >= 3, "driver|"+strings.Join(sh, ","), c, "mode:driver")
 		ctx.Judge(rt, "driver", fl, c)
 	})
